@@ -6,17 +6,11 @@ import TaRs.Lemmas.Core.MeanAbsoluteDeviation
 import TaRs.Gen.MeanAbsoluteDeviation
 import TaRs.Lemmas.RsLemmas
 import TaRs.Lemmas.Total.MeanAbsoluteDeviation
+import TaRs.Lemmas.Bar.MeanAbsoluteDeviation
 namespace TaRs.Gen.MeanAbsoluteDeviation
 open TaRs TaRs.Rs
 
 variable {F : Type} [Scalar F]
-
-/-- wiring of the bar path: WHICH field of the bar `next(&bar)` reads (a value-level fact, hence
-    here and not among the value-agnostic totality lemmas) -/
-theorem nextBar_eq (s : MeanAbsoluteDeviation F) (b : Bar F) : s.nextBar b = s.next b.close := by
-  unfold nextBar
-  try simp only [gen_helper]
-  cases h : s.next b.close <;> simp
 
 /-- the deviation loop of `next`: mean absolute deviation of the first `c` slots of `d` about
     the running mean `sm / c` -/
